@@ -318,20 +318,32 @@ def run(chk):
                    '' if ok else '`%s` leaves `%s` to its default or a constant: the replacement addresses a fixed repetition, '
                    'not the one indexed' % (norm(call), pname), '%s:%d' % (caller.module.relpath, call.lineno),
                    key='C09-N|%s' % caller_q)
+    nd_total = 0
     for m_ in ('__getattr__', '__setattr__', '__delattr__'):
         pf = ix.func('core.ElementProxy.%s' % m_)
         if pf is None:
             raise AnalysisError('ElementProxy.%s not found' % m_)
-        subs_ = [n for n in own_nodes(pf.node) if isinstance(n, ast.Subscript) and
-                 norm(n.value) in ('self.list', 'self.traversal_list')]
-        chk.floor('ElementProxy.%s delegations' % m_, len(subs_), 1)
-        for n in subs_:
-            nn += 1
-            ok = pat.const_of(n.slice) == (True, 0)
-            chk.ob('C09-N', 'ElementProxy.%s delegates to the first repetition' % m_, ok,
-                   '' if ok else '`%s` is not the first repetition' % norm(n), '%s:%d' % (pf.module.relpath, n.lineno),
-                   key='C09-N|ElementProxy.%s|%s' % (m_, norm(n.value)))
-    chk.floor('by-name forms examined (C09-N)', nn, 9)
+        # the method itself and the module-level helpers it hands the proxy to (extract-function refactorings)
+        scopes = [pf]
+        for n in own_nodes(pf.node):
+            if isinstance(n, ast.Call) and isinstance(n.func, ast.Name):
+                h = ix.functions.get('core.%s' % n.func.id)
+                if h is not None and h not in scopes:
+                    scopes.append(h)
+        for sc in scopes:
+            for n in own_nodes(sc.node):
+                if not (isinstance(n, ast.Subscript) and isinstance(n.value, ast.Attribute) and
+                        n.value.attr in ('list', 'traversal_list') and isinstance(n.ctx, ast.Load) and
+                        pat.const_of(n.slice)[0]):
+                    continue
+                nn += 1
+                nd_total += 1
+                ok = pat.const_of(n.slice) == (True, 0)
+                chk.ob('C09-N', 'ElementProxy.%s delegates to the first repetition' % m_, ok,
+                       '' if ok else '`%s` is not the first repetition' % norm(n), '%s:%d' % (sc.module.relpath, n.lineno),
+                       key='C09-N|ElementProxy.%s|%s|%s' % (m_, sc.name, norm(n.value)))
+    chk.floor('ElementProxy attribute delegations (first repetition)', nd_total, 3)
+    chk.floor('by-name forms examined (C09-N)', nn, 7)
 
     from . import codelemmas
     codelemmas.open_ended(chk, c, 'C09-Z')
